@@ -350,6 +350,71 @@ pub fn catch<T, F: FnOnce() -> T>(label: &str, f: F) -> R<T> {
 }
 
 // ---------------------------------------------------------------------------
+// Hang watch: which case each worker thread is running and since when
+// ---------------------------------------------------------------------------
+
+pub struct WatchSlot {
+    /// milliseconds since process start at which the current case began (0 = idle)
+    pub since_ms: std::sync::atomic::AtomicU64,
+    /// set once the slot has been reported, so it is reported once
+    pub reported: std::sync::atomic::AtomicBool,
+    pub info: std::sync::Mutex<(String, Vec<u8>)>,
+}
+
+pub const WATCH_SLOTS: usize = 64;
+
+pub static WATCH: std::sync::LazyLock<Vec<WatchSlot>> = std::sync::LazyLock::new(|| {
+    (0..WATCH_SLOTS)
+        .map(|_| WatchSlot { since_ms: std::sync::atomic::AtomicU64::new(0), reported: std::sync::atomic::AtomicBool::new(false), info: std::sync::Mutex::new((String::new(), Vec::new())) })
+        .collect()
+});
+
+pub static PROCESS_START: std::sync::LazyLock<std::time::Instant> = std::sync::LazyLock::new(std::time::Instant::now);
+
+thread_local! {
+    static WATCH_SLOT: std::cell::Cell<usize> = const { std::cell::Cell::new(usize::MAX) };
+}
+
+pub fn watch_register(slot: usize) {
+    WATCH_SLOT.with(|c| c.set(slot));
+}
+
+pub fn now_ms() -> u64 {
+    PROCESS_START.elapsed().as_millis() as u64 + 1
+}
+
+/// Mark the start of a case on this thread (no-op on unregistered threads).
+pub fn watch_begin(mode: &str, data: &[u8]) {
+    let i = WATCH_SLOT.with(|c| c.get());
+    if i >= WATCH_SLOTS {
+        return;
+    }
+    let s = &WATCH[i];
+    if let Ok(mut g) = s.info.lock() {
+        g.0.clear();
+        g.0.push_str(mode);
+        g.1.clear();
+        g.1.extend_from_slice(data);
+    }
+    s.reported.store(false, std::sync::atomic::Ordering::SeqCst);
+    s.since_ms.store(now_ms(), std::sync::atomic::Ordering::SeqCst);
+}
+
+/// Mark the end of the case; returns its duration in milliseconds.
+pub fn watch_end() -> u64 {
+    let i = WATCH_SLOT.with(|c| c.get());
+    if i >= WATCH_SLOTS {
+        return 0;
+    }
+    let t0 = WATCH[i].since_ms.swap(0, std::sync::atomic::Ordering::SeqCst);
+    if t0 == 0 {
+        0
+    } else {
+        now_ms().saturating_sub(t0)
+    }
+}
+
+// ---------------------------------------------------------------------------
 // Statistics
 // ---------------------------------------------------------------------------
 
@@ -367,6 +432,8 @@ pub struct Stats {
     pub failures: Vec<(Failure, String)>, // failure, replay path
     pub exhaustive_complete: Vec<String>,
     pub notes: Vec<String>,
+    /// longest single case (milliseconds)
+    pub max_case_ms: u64,
 }
 
 pub const MAX_SAMPLES: usize = 6;
@@ -399,6 +466,7 @@ impl Stats {
             }
         }
         self.notes.extend(o.notes);
+        self.max_case_ms = self.max_case_ms.max(o.max_case_ms);
     }
 }
 
@@ -493,10 +561,13 @@ impl<'a, 'k> Exhaust<'a, 'k> {
         }
         let mut cx = Ctx::new(self.known, false, self.dev);
         cx.want_sample = false;
+        watch_begin(mode, data);
         let r = match catch(mode, || f(&mut cx)) {
             Ok(r) => r,
             Err(e) => Err(e),
         };
+        let ms = watch_end();
+        self.stats.max_case_ms = self.stats.max_case_ms.max(ms);
         let r = match r {
             Ok(()) => Ok(()),
             Err(e) => cx.report(e),
